@@ -158,8 +158,7 @@ func C05(c *core.Ctx) {
 			j = kj.Random(rng, kj.GenOpts{Valued: valued, Accruals: !valued, MaxDirs: 10}, 18262+rng.Intn(60))
 			// a few assertions (some multi-line), on never-booked positions (zero)
 			_, hi := journalSpan(j)
-			j.Dirs = append(j.Dirs, kj.Dir{K: "assert", Z: hi + 1, Multi: b%4 == 0, Bal: []kj.Bal{{A: "Assets:Bank", C: "XYZ", Q: 0}, {A: "Assets:Bank", C: "XAU", Q: 0}},
-			}, kj.Dir{K: "open", Z: 18200, A: "Assets:Bank"})
+			j.Dirs = append(j.Dirs, kj.Dir{K: "assert", Z: hi + 1, Multi: b%4 == 0, Bal: []kj.Bal{{A: "Assets:Bank", C: "XYZ", Q: 0}, {A: "Assets:Bank", C: "XAU", Q: 0}}}, kj.Dir{K: "open", Z: 18200, A: "Assets:Bank"})
 			for k, d := range j.Dirs {
 				if d.K == "open" && d.A == "Assets:Bank" && d.Z != 18200 {
 					j.Dirs = append(j.Dirs[:k:k], j.Dirs[k+1:]...) // opened once only
